@@ -37,7 +37,7 @@ func registerNatives2(e *Engine) {
 	n["crypto/sha512.New384"] = hashNew("crypto/sha512", "digest", "SHA384", 48)
 	n["crypto/sha512.New"] = hashNew("crypto/sha512", "digest", "SHA512", 64)
 	n["(crypto.Hash).New"] = func(ex *Exec, site ssa.Instruction, args []Value) Value {
-		h := ex.concretize(ex.term(args[0]), 8, "crypto.Hash value")
+		h := ex.concretize(ex.term(args[0]), 24, "crypto.Hash value")
 		switch h {
 		case 5:
 			return n["crypto/sha256.New"](ex, site, nil)
@@ -46,8 +46,14 @@ func registerNatives2(e *Engine) {
 		case 7:
 			return n["crypto/sha512.New"](ex, site, nil)
 		}
-		ex.fail("UNMODELLED hash function crypto.Hash(%d).New", h)
-		return nil
+		// any other registered algorithm: a model hash of its own (same shape, own function symbols)
+		sizes := map[int64]int{1: 16, 2: 16, 3: 20, 4: 28, 8: 36, 9: 20, 10: 28, 11: 32, 12: 48, 13: 64, 14: 28, 15: 32, 16: 32, 17: 32, 18: 48, 19: 64}
+		sz, ok := sizes[h]
+		if !ok {
+			ex.oblige("panic", "", ex.tb().True(), "crypto: requested hash function is unavailable")
+			panic(pathEnd{kind: endPanic})
+		}
+		return hashNew("crypto/sha512", "digest", "HASH"+itoa(int(h)), sz)(ex, site, nil)
 	}
 	hobj := func(ex *Exec, v Value) *Obj {
 		p, ok := v.(Ptr)
@@ -155,6 +161,30 @@ func registerNatives2(e *Engine) {
 			}
 			return ex.tb().False()
 		}
+	}
+
+	// ---- crypto/x509.CertPool as a bare container (harness groups that verify chains model it in Go) ----
+	n["crypto/x509.NewCertPool"] = func(ex *Exec, site ssa.Instruction, args []Value) Value {
+		p := ex.eng.Prog.ImportedPackage("crypto/x509")
+		if p == nil || p.Type("CertPool") == nil {
+			ex.fail("crypto/x509 is not loaded")
+		}
+		t := p.Type("CertPool").Type()
+		return Ptr{Obj: ex.newObj(t, ex.zero(t))}
+	}
+	n["(*crypto/x509.CertPool).AddCert"] = func(ex *Exec, site ssa.Instruction, args []Value) Value {
+		p, ok := args[0].(Ptr)
+		if !ok || p.Obj == nil {
+			ex.nilDeref("AddCert on nil pool")
+		}
+		if p.Obj.Ghost == nil {
+			p.Obj.Ghost = map[string]Value{}
+		}
+		k := 0
+		for ; p.Obj.Ghost["cert"+itoa(k)] != nil; k++ {
+		}
+		p.Obj.Ghost["cert"+itoa(k)] = args[1]
+		return nil
 	}
 
 	// ---- calls made by package initialisers of the library packages that are executed ----
